@@ -90,3 +90,126 @@ func VH_C03_delete_loc() {
 	}
 	vC03Loc(vShard(n), 4)
 }
+
+// ---- Family A (API level): gts.Delete / gts.Erase / gts.Slice on sequences ---------------------
+
+//verif:harness prop=C03 quick=6 thorough=12 merge=concrete timeout=1500
+//verif:bounds API level: sequence of 4 (quick) / 5 (thorough) symbolic residues, source + one tagged feature (range/point/between | 2-part join | complemented range | 2-part order; symbolic coordinates and flags); Delete and Erase for every (i,n) with i+n<=L; Slice for every window incl. wrap-around (e<s), empty windows and negative indices
+func VH_C03_api() {
+	sh := vShard(6 + 6*vTier())
+	op := sh % 3 // 0 delete 1 erase 2 slice
+	shape := (sh / 3) % 4
+	L := 4 + vTier()
+	data := vBytes("r", L)
+	loc := vGenApiLoc("f", L, shape)
+	ff := FeatureSlice{}
+	ff = ff.Insert(Feature{"source", Range(0, L), Props{[]string{"tag", "src"}}})
+	ff = ff.Insert(Feature{"gene", loc, Props{[]string{"tag", "f"}}})
+	seq := Sequence(New(nil, ff, data))
+	as := vAtoms(loc)
+	x := vIntIn("x", 0, L)
+	if op < 2 {
+		i := vChoice("i", L+1)
+		n := vChoice("n", L+1-i)
+		var out Sequence
+		if op == 0 {
+			out = Delete(seq, i, n)
+		} else {
+			out = Erase(seq, i, n)
+		}
+		vCover("removed")
+		got := out.Bytes()
+		vAssert("length", len(got) == L-n)
+		if len(got) != L-n {
+			return
+		}
+		for k := 0; k < i; k++ {
+			vAssert("prefix-kept", got[k] == data[k])
+		}
+		for k := i + n; k < L; k++ {
+			vAssert("suffix-kept", got[k-n] == data[k])
+		}
+		f, cnt := vFindTagged(out.Features(), "f")
+		_, nsrc := vFindTagged(out.Features(), "src")
+		vAssert("source-kept", nsrc == 1)
+		if op == 1 {
+			// Erase drops a feature iff every part of it lies within the removed region
+			within := true
+			for _, a := range as {
+				within = vAnd(within, vAnd(i <= a.s, a.e <= i+n))
+			}
+			vAssert("erase-drops-exactly-the-contained", (cnt == 0) == within)
+		} else {
+			vAssert("delete-keeps-every-feature", cnt == 1)
+		}
+		if cnt == 1 {
+			bs := vAtoms(f.Loc)
+			vAssert("in-range", vInRange(bs, L-n))
+			vAssume(x < L-n)
+			src := vIte(x < i, x, x+n)
+			vAssert("survivors-fwd", vCovS(bs, x, false) == vCovS(as, src, false))
+			vAssert("survivors-rev", vCovS(bs, x, true) == vCovS(as, src, true))
+		}
+		vObserve("outlen", len(got))
+		return
+	}
+	// Slice: window given by (s,e), possibly negative, possibly wrapping
+	s := vChoice("s", 2*L) - L  // -L .. L-1
+	e := vChoice("e", 2*L+1) - L // -L .. L
+	ns, ne := s, e
+	if ns < 0 {
+		ns += L
+	}
+	if ne < 0 {
+		ne += L
+	}
+	var out Sequence
+	p := vPanics(func() { out = Slice(seq, s, e) })
+	vAssert("slice-no-panic", !p)
+	if p {
+		return
+	}
+	vCover("sliced")
+	got := out.Bytes()
+	// the window in input coordinates
+	wlen := ne - ns
+	if ne < ns {
+		wlen = L - ns + ne
+	}
+	vAssert("window-length", len(got) == wlen)
+	if len(got) != wlen {
+		return
+	}
+	for k := 0; k < wlen; k++ {
+		vAssert("window-residues", got[k] == data[(ns+k)%L])
+	}
+	f, cnt := vFindTagged(out.Features(), "f")
+	// a feature that shares a residue with the window must be kept
+	shares := false
+	for k := 0; k < wlen; k++ {
+		shares = vOr(shares, vCov(as, (ns+k)%L))
+	}
+	vAssert("overlapping-feature-kept", vImplies(shares, cnt == 1))
+	vAssert("at-most-once", cnt <= 1)
+	if cnt == 1 {
+		bs := vAtoms(f.Loc)
+		vAssert("in-range", vInRange(bs, wlen))
+		vAssume(x < wlen)
+		// residue x of the slice is input residue (ns+x) mod L
+		srcpos := 0
+		for k := 0; k < wlen; k++ {
+			srcpos = vIte(x == k, (ns+k)%L, srcpos)
+		}
+		vAssert("window-feature-fwd", vCovS(bs, x, false) == vCovS(as, srcpos, false))
+		vAssert("window-feature-rev", vCovS(bs, x, true) == vCovS(as, srcpos, true))
+	}
+	for _, g := range out.Features() {
+		if g.Key == "source" {
+			for _, a := range vAtoms(g.Loc) {
+				vAssert("source-not-partial", vAnd(!a.p5, !a.p3))
+			}
+		}
+	}
+	vAssert("argument-unchanged", len(seq.Bytes()) == L)
+	vObserve("outlen", len(got))
+}
